@@ -266,3 +266,116 @@ Proof. vm_compute. reflexivity. Qed.
 
 Example plain_example : url_plain [100; 105; 114; 47; 102; 46; 116; 120; 116] = true.
 Proof. vm_compute. reflexivity. Qed.
+
+
+Lemma std_components_plain_one file : url_plain file = true -> split_slash [] file = [file] ->
+  std_components file = [file].
+Proof.
+  intros Hp Hs. unfold url_plain in Hp. apply andb_true_iff in Hp as [_ Hp].
+  rewrite (std_components_plain file Hp). exact Hs.
+Qed.
+
+(* ---------------------------------------------------------------------------------------- *)
+(* Metadata files of delegated roles (C16): the file name built from a role name is a plain name of one
+   component, so the file a local client opens is that entry, directly inside the metadata directory. *)
+From ToughV Require Import Proofs.PctP.
+
+Lemma fname_char_plain_char c : fname_char c = true -> plain_char c = true.
+Proof.
+  unfold fname_char, unreserved, is_alnum, plain_char, in_path_set. intros H.
+  apply andb_true_iff. split; apply negb_true_iff.
+  - rewrite !orb_false_iff. repeat split; lia.
+  - lia.
+Qed.
+
+Lemma no_slash_single s : Forall (fun c => c <> 47) s -> forall cur, split_slash cur s = [rev cur ++ s].
+Proof.
+  induction 1 as [|c r Hc Hr IH]; intros cur; cbn [split_slash].
+  - rewrite app_nil_r. reflexivity.
+  - destruct (c =? 47) eqn:E; [apply N.eqb_eq in E; contradiction|].
+    rewrite IH. cbn [rev]. rewrite <- app_assoc. reflexivity.
+Qed.
+
+Lemma scheme_rest_colon s : scheme_rest s = true -> In 58 s.
+Proof.
+  induction s as [|c r IH]; cbn [scheme_rest]; [discriminate|].
+  destruct (c =? 58) eqn:E; [apply N.eqb_eq in E; subst; left; reflexivity|].
+  destruct (is_alnum c || (c =? 43) || (c =? 45) || (c =? 46)); [|discriminate].
+  intros H. right. apply IH. exact H.
+Qed.
+
+Lemma dot_tok_inv s r : dot_tok s = Some r ->
+  s = 46 :: r \/ s = 37 :: 50 :: 101 :: r \/ s = 37 :: 50 :: 69 :: r.
+Proof.
+  unfold dot_tok. destruct s as [|a [|b [|c t]]];
+    repeat match goal with |- context [match ?x with _ => _ end] => destruct x end;
+    try discriminate; intros H; injection H as <-; auto.
+Qed.
+
+Lemma ends_json_last p : last (p ++ dot_json) 0 = 110.
+Proof.
+  unfold dot_json. change [46; 106; 115; 111; 110] with ([46; 106; 115; 111] ++ [110]).
+  rewrite app_assoc. apply last_last.
+Qed.
+
+Lemma dots_last s : single_dot s = true \/ double_dot s = true ->
+  last s 0 = 46 \/ last s 0 = 101 \/ last s 0 = 69.
+Proof.
+  unfold single_dot, double_dot. intros [H|H].
+  - destruct (dot_tok s) as [r|] eqn:E; [|discriminate]. destruct r; [|discriminate].
+    apply dot_tok_inv in E. destruct E as [-> | [-> | ->]]; cbn; auto.
+  - destruct (dot_tok s) as [r|] eqn:E; [|discriminate].
+    destruct (dot_tok r) as [r2|] eqn:E2; [|discriminate]. destruct r2; [|discriminate].
+    apply dot_tok_inv in E, E2.
+    destruct E2 as [-> | [-> | ->]]; destruct E as [-> | [-> | ->]]; cbn; auto.
+Qed.
+
+Theorem role_filename_url_plain cs v name : Forall (fun c => c < 256) name ->
+  url_plain (role_filename cs v name) = true.
+Proof.
+  intros Hn. pose proof (role_filename_chars cs v name Hn) as Hch.
+  destruct (role_filename_ends cs v name) as [p Hp].
+  assert (Hns : Forall (fun c => c <> 47) (role_filename cs v name)).
+  { eapply Forall_impl; [|exact Hch]. cbn beta. intros c Hc. apply fname_char_plain in Hc. tauto. }
+  unfold url_plain. rewrite (no_slash_single _ Hns []). cbn [rev app forallb]. rewrite andb_true_r.
+  apply andb_true_iff. split.
+  - apply negb_true_iff. unfold has_scheme. destruct (role_filename cs v name) as [|c r] eqn:E; [reflexivity|].
+    destruct (scheme_rest r) eqn:Es; [|apply andb_false_r].
+    apply scheme_rest_colon in Es. rewrite Forall_forall in Hch.
+    assert (Hc : fname_char 58 = true) by (apply Hch; right; exact Es). discriminate Hc.
+  - unfold plain_seg.
+    assert (Hlen : (5 <= length (role_filename cs v name))%nat).
+    { rewrite Hp, app_length. cbn [length dot_json]. lia. }
+    assert (He : is_empty (role_filename cs v name) = false).
+    { destruct (role_filename cs v name); [cbn [length] in Hlen; lia | reflexivity]. }
+    assert (Hpl : forallb plain_char (role_filename cs v name) = true).
+    { apply forallb_forall. rewrite Forall_forall in Hch. intros c Hc. apply fname_char_plain_char, Hch, Hc. }
+    assert (Hdr : is_drive (role_filename cs v name) = false).
+    { destruct (role_filename cs v name) as [|a [|b [|c t]]]; cbn [length] in Hlen; try lia. reflexivity. }
+    (* a dot segment in any spelling ends with '.', 'e' or 'E'; the name ends with 'n' *)
+    assert (Hd : single_dot (role_filename cs v name) = false /\ double_dot (role_filename cs v name) = false).
+    { rewrite Hp. pose proof (ends_json_last p) as Hl.
+      split; [destruct (single_dot (p ++ dot_json)) eqn:E | destruct (double_dot (p ++ dot_json)) eqn:E];
+        try reflexivity; exfalso;
+        (destruct (dots_last (p ++ dot_json)) as [H|[H|H]]; [auto | rewrite Hl in H; discriminate H ..]). }
+    destruct Hd as [Hsd Hdd]. rewrite He, Hpl, Hsd, Hdd, Hdr. reflexivity.
+Qed.
+
+(* so a local client (FilesystemTransport) asking for a delegated role's metadata opens the entry of that very
+   name directly inside the metadata directory *)
+Theorem role_file_opened base cs v name : nonempty_comps base = true -> Forall (fun c => c < 256) name ->
+  url_join base (role_filename cs v name) = UPath (base ++ [role_filename cs v name]) false.
+Proof.
+  intros Hb Hn. rewrite (url_join_plain base _ Hb (role_filename_url_plain cs v name Hn)).
+  f_equal. unfold put_comps.
+  pose proof (role_filename_chars cs v name Hn) as Hch.
+  assert (Hns : Forall (fun c => c <> 47) (role_filename cs v name)).
+  { eapply Forall_impl; [|exact Hch]. cbn beta. intros c Hc. apply fname_char_plain in Hc. tauto. }
+  assert (Hsp : split_slash [] (role_filename cs v name) = [role_filename cs v name])
+    by (rewrite (no_slash_single _ Hns []); reflexivity).
+  assert (Hstd : std_components (role_filename cs v name) = [role_filename cs v name]).
+  { apply std_components_plain_one. exact (role_filename_url_plain cs v name Hn). exact Hsp. }
+  rewrite Hstd.
+  destruct (role_filename cs v name) as [|c r] eqn:E; [reflexivity|].
+  inversion Hns as [|? ? Hc _]; subst. apply N.eqb_neq in Hc. rewrite Hc. reflexivity.
+Qed.
